@@ -9,13 +9,14 @@ LEVEL = 'proof'
 P = 'poseidon_goldilocks.cpp'
 REN = [('linear_hash_seq', 'PoseidonGoldilocks_linear_hash_seq'), ('linear_hash_avx512', 'PoseidonGoldilocks_linear_hash_avx512'), ('linear_hash', 'PoseidonGoldilocks_linear_hash'),
        ('hash_seq', 'PoseidonGoldilocks_hash_seq'), ('hash', 'PoseidonGoldilocks_hash'), ('merkletree_avx', 'PoseidonGoldilocks_merkletree_avx')]
-RULES = [(r'\bi \* num_cols \* dim\b', 'ROWOFF(i, num_cols, dim)'), (r'\bnum_cols \* dim\b', 'ROWLEN(num_cols, dim)'),
-         (r'floor\(\((\w+) - 1\) / 2\)', r'((\1 - 1) / 2) /* M2-floor: floor of an integer-valued double below 2^53 is the integer */')]
+RULES = [(r'floor\(\((\w+) - 1\) / 2\)', r'((\1 - 1) / 2) /* M2-floor: floor of an integer-valued double below 2^53 is the integer */')]
+SIZEVARS = ['i', 'j', 'num_cols', 'dim', 'batch_size', 'nn', 'nbatches', 'num_rows', 'nlastb']
 def gen(f, name, step):
     txt = cify.cify(f, P, 'PoseidonGoldilocks::' + name, 'PoseidonGoldilocks_' + name, REN, {0: 'LOOP_LEAF(%d)' % step, 1: 'LOOP_LEVELS', 2: 'LOOP_NODES'}, extra_rules=RULES)
-    for pat in ('ROWOFF(i, num_cols, dim)', 'ROWLEN(num_cols, dim)', 'M2-floor'):
-        if pat not in txt:
-            raise extract.ExtractError('M2: %s: expected rewrite %r did not fire' % (name, pat))
+    txt, n = cify.umul_rewrite(txt, SIZEVARS)
+    if n < 2 or 'M2-floor' not in txt:
+        raise extract.ExtractError('M2: %s: expected at least two size products and the floor rewrite (found %d products)' % (name, n))
+    f.note('M2-mul', P, n, 0, 0, '%s: %d product chains of size variables -> UMUL' % (name, n))
     return txt
 def filt(repo_src, dst):
     f = extract.Filter(repo_src, dst)
@@ -26,13 +27,13 @@ def filt(repo_src, dst):
     f.note('M2-cify', 'merklehash_goldilocks.hpp', 1, 0, 0, 'MerklehashGoldilocks::getTreeNumElements')
     f.files = {'gen_merkle.c': txt}
     return f
-BRULES = [(r'\(num_cols \+ batch_size - 1\) / batch_size', 'vf_udiv(num_cols + batch_size - 1, batch_size)'), (r'\(nbatches - 1\) \* batch_size', 'UMUL(nbatches - 1, batch_size)'),
-          (r'\bj \* batch_size \* dim\b', 'UMUL(UMUL(j, batch_size), dim)'), (r'\bnn \* dim\b', 'UMUL(nn, dim)')] + RULES
+BRULES = [(r'\(num_cols \+ batch_size - 1\) / batch_size', 'vf_udiv(num_cols + batch_size - 1, batch_size)')] + RULES
 def genb(f, name):
     txt = cify.cify(f, P, 'PoseidonGoldilocks::' + name, 'PoseidonGoldilocks_' + name, REN, {0: 'LOOP_LEAF(1)', 1: 'LOOP_BATCH', 2: 'LOOP_LEVELS', 3: 'LOOP_NODES'}, extra_rules=BRULES)
-    for pat in ('vf_udiv(', 'UMUL(nbatches - 1, batch_size)', 'UMUL(UMUL(j, batch_size), dim)', 'UMUL(nn, dim)', 'ROWOFF(i, num_cols, dim)', 'M2-floor'):
-        if pat not in txt:
-            raise extract.ExtractError('M2: %s: expected rewrite %r did not fire' % (name, pat))
+    txt, n = cify.umul_rewrite(txt, SIZEVARS)
+    if n < 4 or 'vf_udiv(' not in txt or 'M2-floor' not in txt:
+        raise extract.ExtractError('M2: %s: expected the batch division, the floor rewrite and at least four size products (found %d products)' % (name, n))
+    f.note('M2-mul', P, n, 0, 0, '%s: %d product chains of size variables -> UMUL' % (name, n))
     return txt
 def filt_batch(repo_src, dst):
     f = extract.Filter(repo_src, dst)
@@ -63,3 +64,4 @@ _g, _u = import_units('C07', lambda n: n in ('linear_hash_seq', 'linear_hash'))
 GROUPS.update(_g); UNITS += _u
 NATIVE_FLAGS = ['-mavx2', '-mavx512f', '-D__AVX512__']
 NATIVE_SOURCES = []
+ORACLE_SCANS = True
